@@ -123,7 +123,7 @@ ParseMsg(b) ==
          ELSE LET hs == [i \in 1..Len(h.lines) |-> Header(h.lines[i])]
                   chunked == Lower(HdrVal(hs, LitTransferEncoding)) = LitChunked
                   cl == HdrVal(hs, LitContentLength)
-                  n == IF AllDigits(cl) THEN DecVal(cl) ELSE 0
+                  n == IF AllDigits(cl) THEN (IF Len(cl) <= 9 THEN DecVal(cl) ELSE 999999999) ELSE 0    \* TLC integers are 32 bit
                   base == [Incomplete EXCEPT !.parts = Split3(Sub(b, 1, le - 1)), !.hdrs = hs]
               IN
               IF chunked
